@@ -16,6 +16,28 @@ CHECKS = {
         note='bounded model (small-scope); behaviours sampled by seeded TLC simulation; protocol assumption: a failed '
              'storage call is followed by tpc_abort',
         design='6/C04'),
+    'C01': dict(
+        technique='TLA+ spec ZFile (commit protocol at raw-operation level with crash recovery) model-checked by TLC; traces '
+                  'of the real FileStorage recorded by a harness-side file layer, with crash-image probes, validated by TLC '
+                  'against ZFileTrace',
+        text='TLC checks CrashConsistent / OnlyFlippedSurvives / FsyncBeforeAck on ZFile; conformance (code -> spec): TLC '
+             'behaviours of ZStorage run on a real FileStorage over a recording raw-file layer; every operation boundary and '
+             'byte-prefixes of every data-file write become crash images reopened with the real FileStorage, the full query '
+             'table of the recovered storage must equal a version of the model history, and TLC validates each trace '
+             '(operation order, flags, fsync between flip and acknowledgement, every probe = number of flipped transactions).',
+        note='crash model = prefix of issued raw operations with torn last write; quick samples torn cuts, thorough enumerates '
+             'every byte for 1 in 5 behaviours',
+        design='6/C01'),
+    'C09': dict(
+        technique='same ZFile/ZFileTrace specification; probes opening every quiescent directory state with every earlier saved '
+                  'index (also truncated, with leftover side files) and read-only, validated by TLC',
+        text='IndexIsCache and ReadOnlyWritesNothing as trace properties: at every point where an API call returned the '
+             'directory is opened without index, with each earlier saved .index (incl. pre-pack ones, cut short, with leftover '
+             '.tmp/.pack/.old/.index_tmp/.lock) and read-only; the opened storage must answer every query like the version of '
+             'the history the data file alone determines; read-only opens must leave the directory byte- and mtime-identical '
+             'and refuse 7 writing calls.',
+        note='pack crash states belong to C08; bit damage inside an index is outside the guarantee',
+        design='6/C09'),
     'C03': dict(
         technique='TLA+ spec ZStorage (NoLostUpdate, StoredIsMerge) model-checked by TLC; conflict-heavy TLC behaviours '
                   'replayed on FileStorage and MappingStorage, outcome of every store/checkCurrent compared',
